@@ -497,3 +497,5 @@ _quick("C13", "C11_pipeline", "(also under C11) " + _PIPE + " (every run-time ch
 _quick("C05", "C05_mslate", "the millisecond wheel when a slot's sweeper goroutine is d = 0 / 1 / 5 ms late: W1 waits 300 ms; in the window between its deadline and its sweeper's run W2 arrives with a wait of 2500 / 2995 / 3000 - d ms; neither is answered TIMEOUT before its wait has passed, each exactly once by T + 2 s", [], reach=["late-sweep"], native=False)
 
 _quick("C04", "C17_zerowaiter", "(also under C17) a holder and 1..2 queued requests of which the first, the second or both have Expried 0 (served, such a request holds nothing); the holder unlocks: the wake-up pass goes on until the next queued request is not admissible — nothing admissible is left at the head of the queue", ["-witness", "1"])
+
+_quick("C08", "C16_staletmp", "(also under C16) a compaction that died after writing rewrite.aof.tmp and its value file (the process stopped at that instant), a restart, the next compaction, another restart: the holds come back with their own values (a value file left behind by the interrupted compaction is not appended to)", ["-witness", "1"], reach=["end"])
